@@ -4,15 +4,23 @@ import vlib
 from vlib import run_tlc, cargo_build, run_bin, outdir, ToolError
 
 
+def der_vectors(pid, tier):
+    quick = tier == "quick"
+    d = outdir(pid)
+    ks = [0, 6, 7, 8, 14, 15, 16, 21, 23, 24, 28, 31, 32, 35, 39, 40, 42, 47, 48, 49, 55, 56, 62, 63] if quick else list(range(0, 64))
+    vec = os.path.join(d, "der.ndjson")
+    t = run_tlc(pid, "MC_Der", "SPECIFICATION Spec\nCONSTANTS\n  KS = {%s}\n  Small = %d\nINVARIANTS RoundTrip Emit\nCHECK_DEADLOCK FALSE\n" % (
+        ", ".join(map(str, ks)), 5 if quick else 300), replay_to=vec, coverage=False, heap="4g")
+    if t.violation:
+        raise ToolError("Der.tla violates its own round trip: " + t.violation)
+    return t, vec
+
+
 def run(v):
     quick = v.tier == "quick"
     d = outdir("C20")
     ks = [0, 6, 7, 8, 14, 15, 16, 21, 23, 24, 28, 31, 32, 35, 39, 40, 42, 47, 48, 49, 55, 56, 62, 63] if quick else list(range(0, 64))
-    vec = os.path.join(d, "der.ndjson")
-    t = run_tlc("C20", "MC_Der", "SPECIFICATION Spec\nCONSTANTS\n  KS = {%s}\n  Small = %d\nINVARIANTS RoundTrip Emit\nCHECK_DEADLOCK FALSE\n" % (
-        ", ".join(map(str, ks)), 5 if quick else 300), replay_to=vec, coverage=False, heap="4g")
-    if t.violation:
-        raise ToolError("Der.tla violates its own round trip: " + t.violation)
+    t, vec = der_vectors("C20", v.tier)
     v.add_tlc("MC_Der", t)
     cargo_build()
     res = os.path.join(d, "der.res")
